@@ -42,7 +42,7 @@ GARBAGE = [b"", b"{", b"[1,", b"\xff\xfe\x00", b"<a>", b"a: [", b": :", b"\x00\x
            b"\x80\x04garbage", b"{\"a\": }", b"- a\n b: [", b"\xc3\x28"]
 JUDGED_LIST = ("append", "insert", "setitem")
 JUDGED_DICT = ("setitem", "setdefault", "update1")
-JUDGED_SLIST = ("append", "append-config", "insert", "setitem", "item-set")
+JUDGED_SLIST = ("append", "append-config", "insert", "setitem", "item-set", "reappend", "reinsert")
 
 
 def selftest():
@@ -67,6 +67,14 @@ def exhaustive(tier):
                 for i in (range(-5, 6) if op in ("insert", "setitem") else (0,)):
                     for bad_item in (False, True):
                         yield {"mode": "limit", "kind": kind, "k": k, "what": op, "i": i, "bad_item": bad_item}
+    # a configuration that the list already holds, edited into a state its own schema rejects, is offered to the
+    # same list again (append / insert / item replacement): the rejection must leave the list as it was
+    for configtype in (False, True):
+        for n in (1, 2, 3):
+            for j in range(n):
+                for op in ("append", "insert", "setitem", "extend1", "iadd1"):
+                    for i in (range(-3, 4) if op in ("insert", "setitem") else (0,)):
+                        yield {"mode": "reoffer", "configtype": configtype, "n": n, "j": j, "what": op, "i": i}
 
 
 def _with_includes(spec):
@@ -120,7 +128,11 @@ def strategy(tier):
         extra = _extra_ops(spec)
         mixed = st.lists(ops.weighted((3, base), (1, st.one_of(*extra))), min_size=2, max_size=n)
         return st.fixed_dictionaries({"spec": st.just(spec), "ops": mixed})
-    return worlds.schema_spec(tier, allow=("schema", "configtype", "schemalist", "virtual", "method", "featureflag")).flatmap(_with_includes).flatmap(hist)
+    from .c11 import _decorate
+    # whole-configuration rules (schema-level validators, cross-field validators) on every level incl. item schemas
+    draws = [[{"name": "sv_max_set", "k": 1}], None, [{"name": "sv_ok"}], [{"name": "sv_max_set", "k": 2}], [{"name": "sv_min_set", "k": 1}], None]
+    return worlds.schema_spec(tier, allow=("schema", "configtype", "schemalist", "schemalist", "virtual", "method", "featureflag")).map(
+        lambda spec: _decorate(spec, draws, [0])).flatmap(_with_includes).flatmap(hist)
 
 
 def _mutate(doc, mut, fmt):
@@ -196,9 +208,56 @@ def _limit_case(case, R):
         R.nontrivial = True
 
 
+def _reoffer_case(case, R):
+    cc = sandbox._state["cc"]
+    R.label("reoffer")
+    item = cc.Schema()
+    item.lo = cc.IntField(default=0)
+    item.hi = cc.IntField(default=10)
+
+    @cc.validator(item)
+    def lo_le_hi(cfg):
+        if cfg.lo is not None and cfg.hi is not None and cfg.lo > cfg.hi:
+            raise ValueError("lo must not exceed hi")
+    schema = cc.Schema()
+    schema.items = cc.ListField(cc.make_type(item, "Item", module=__name__) if case["configtype"] else item)
+    schema.other = cc.IntField(default=1)
+    cfg = schema()
+    cfg.items = [{"lo": k, "hi": k + 5} for k in range(case["n"])]
+    lst = cfg.items
+    victim = lst[case["j"]]
+    victim.lo = 99  # each field is fine on its own; the configuration as a whole is not
+    before = worlds.snapshot(cfg, cc, with_ids=True)
+    what, i = case["what"], case["i"]
+    try:
+        if what == "append":
+            lst.append(victim)
+        elif what == "insert":
+            lst.insert(i, victim)
+        elif what == "setitem":
+            if not -len(lst) <= i < len(lst):
+                return
+            lst[i] = victim
+        elif what == "extend1":
+            lst.extend([victim])
+        else:
+            lst += [victim]
+        raised = False
+    except Exception:
+        raised = True
+    if not R.check(raised, "must-raise", "reoffer:" + what, "a configuration that violates its own schema was accepted by %s" % what):
+        return
+    R.label("judged:reoffer")
+    after = worlds.snapshot(cfg, cc, with_ids=True)
+    R.check(before == after, "unchanged", "reoffer:" + what, lambda: "a rejected %s(%r) of an item the list already holds changed the list: %s" % (what, i, worlds.diff(before, after)))
+    R.nontrivial = True
+
+
 def run_case(case, R):
     if case.get("mode") == "limit":
         return _limit_case(case, R)
+    if case.get("mode") == "reoffer":
+        return _reoffer_case(case, R)
     cc = sandbox._state["cc"]
     spec = case["spec"]
     with sandbox.CaseDir() as d:
